@@ -64,7 +64,12 @@ def case_strategy(draw):
     ncomb = math.comb(k, order)
     return {'cols': cols, 'label': label, 'label_pos': draw(st.integers(0, k)), 'order': order,
             'cap': draw(st.integers(1, ncomb + 2)),
-            'index': draw(st.sampled_from(['range', 'range', 'range', 'shuffled', 'gaps', 'strings']))}
+            'index': draw(st.sampled_from(['range', 'range', 'range', 'shuffled', 'gaps', 'strings', 'bootstrap', 'stacked'])),
+            # history: this many earlier mini-batches of the same columns went through the ranking loop's batch function in this
+            # process (feature construction, ranking, cardinality / count bookkeeping); 'constant' = every column held one value there
+            # (a stream sorted by day, a sparse flag that was empty so far) for the columns marked in prior_const, 'same' = the earlier batches had the same rows
+            'prior': draw(st.sampled_from([0, 0, 0, 1, 2])), 'prior_kind': draw(st.sampled_from(['constant', 'constant', 'same'])),
+            'prior_const': draw(st.lists(st.booleans(), min_size=k, max_size=k))}
 
 
 def build(case):
@@ -83,6 +88,11 @@ def build(case):
         df.index = [3 * i + 2 for i in range(n)]
     elif kind == 'strings':
         df.index = [f'r{i}' for i in range(n)]
+    elif kind == 'bootstrap':   # a resampled frame: row labels repeat
+        df.index = [(5 * i + 1) % max(1, n - n // 3) for i in range(n)]
+    elif kind == 'stacked':     # two frames stacked without ignore_index: labels 0..h-1, 0..n-h-1
+        h = (n + 1) // 2
+        df.index = list(range(h)) + list(range(n - h))
     return df, names
 
 
@@ -92,6 +102,18 @@ def oracle(case, rec):
     order, cap = int(case['order']), int(case['cap'])
     args = stubs.make_args(interaction_order=order, combination_number_upper_bound=cap, heuristic='MI-numba-randomized')
     stubs.reset_globals()
+    for _ in range(int(case.get('prior', 0))):
+        import logging
+        names_in_order = list(df.columns)
+        if case.get('prior_kind') == 'same':
+            rows = [[str(df[c].iloc[i]) for c in names_in_order] for i in range(len(df))]
+        else:
+            const = {f'c{j}' for j, flag in enumerate(case.get('prior_const') or []) if flag} or set(names_in_order)
+            rows = [[('0' if i % 2 else '1') if c == 'label' else str(df[c].iloc[0 if c in const else i % len(df)]) for c in names_in_order]
+                    for i in range(max(2, len(df)))]
+        cr.compute_batch_ranking(rows, set(), args, stubs.InlinePool(), names_in_order, logging.getLogger('c10'), stubs.PBar())
+    if case.get('prior'):
+        rec.cls('after-%s-earlier-batches' % case.get('prior_kind'))
     out = cr.compute_combined_features(df, args, stubs.PBar())
     rec.cls('order=%d' % order, 'capped' if cap < math.comb(len(feat), order) else 'uncapped', 'index=' + case.get('index', 'range'))
     if not df.equals(before):
